@@ -71,7 +71,31 @@ class DeleteApplication(BaseMutation):
         if mutator.database:
             app_sig = mutator.project_sig.get_app_sig(mutator.app_label)
 
-            for model_sig in list(app_sig.model_sigs):
+            # Delete models that refer to other models of this app before
+            # the models they refer to: deleting a model needs the
+            # signatures of the models its relations point to.
+            remaining = list(app_sig.model_sigs)
+            model_sigs = []
+
+            while remaining:
+                for model_sig in remaining:
+                    related_name = '%s.%s' % (mutator.app_label,
+                                              model_sig.model_name)
+
+                    if not any(
+                        field_sig.related_model == related_name
+                        for other_sig in remaining
+                        if other_sig is not model_sig
+                        for field_sig in other_sig.field_sigs):
+                        break
+                else:
+                    # The remaining models refer to each other.
+                    model_sig = remaining[0]
+
+                remaining.remove(model_sig)
+                model_sigs.append(model_sig)
+
+            for model_sig in model_sigs:
                 model_name = model_sig.model_name
                 mutation = DeleteModel(model_name)
 
